@@ -226,7 +226,7 @@ pub fn crash_child(args: &[String]) -> i32 {
 fn crashes(opts: &Opts, rep: &mut Report) {
     let exe = std::env::current_exe().expect("exe");
     let mut rng = Rng::new(opts.shard_seed() ^ 0xC17);
-    let kills = opts.budget(16 * 40, 16 * 2000);
+    let kills = opts.budget(16 * 300, 16 * 6000);
     for k in 0..kills {
         let kind = if k % 2 == 0 { "copy" } else { "packet" };
         let total = if kind == "copy" { rng.range(2_000, 200_000) } else { rng.range(200, 5_000) };
